@@ -195,12 +195,24 @@ pub fn run(ctx: &Ctx) -> Report
     rep.assume("Distinct clock; commands deterministic");
     let (cases, max_rules, max_ops) = ctx.tier.pick((6000u32, 6usize, 10usize), (100000, 10, 30));
     rep.absorb(drive::drive(ctx, 10, cases, || strategy(max_rules, max_ops), |c, st| test_case(ctx, c, st)));
+    // the same oracle on the real file system through the built binary
+    let mut real = crate::verif::props::realp::run_c10_real(ctx, ctx.tier.pick(24, 300));
+    for f in real.1.iter_mut()
+    {
+        f.case = serde_json::json!({ "real_fs": f.case });
+    }
+    rep.absorb(real);
     rep
 }
 
 pub fn replay(ctx: &Ctx, case: &serde_json::Value) -> Result<(), String>
 {
-    let c: CleanCase = drive::parse_case(case)?;
     let mut st = Stats::default();
+    if let Some(inner) = case.get("real_fs")
+    {
+        let c: crate::verif::props::realp::RealCase = drive::parse_case(inner)?;
+        return crate::verif::props::realp::c10_real(&c, &mut st);
+    }
+    let c: CleanCase = drive::parse_case(case)?;
     test_case(ctx, &c, &mut st)
 }
